@@ -539,6 +539,21 @@ class FnMergeLoop(Contract):
         eng.assume(z3.Implies(HD0(head(P0)), dis_nonempty))
         for f in self.inv(res0, dis0, Done, P0).values():
             eng.assume(f)
+        # helper closures the prefix defines (a hoisted `pick(v1, v2)` over `check` ...) are taken from a run of the
+        # real prefix on token maps with THIS check; everything else the body reads is supplied symbolically below
+        class _Keys(dict):
+            pass
+
+        try:
+            tb = {n: None for n in names}
+            tb.update(self=stub, x=_Keys(k1=1), x_=_Keys(k2=2), check=self.check)
+            _kind, _pl = self.pc["prefix"](**tb)
+            if _kind == "fallthrough":
+                base.update({n: v for n, v in _pl.items() if callable(v) and not isinstance(v, (dict, type(stub)))})
+        except EngineLimit:
+            raise
+        except Exception as e:
+            raise EngineLimit("Fn.merge prefix not runnable on token maps: %r" % (e,))
         base.update(self=stub, x=self.x, x_=self.y, check=self.check)
         base[RES], base[DIS] = res0, dis0
         if piece == "suffix":
